@@ -40,7 +40,7 @@ func runC06(c *ctxT) {
 		}
 		if i%5 == 0 {
 			// interface creation that fails after the interface exists, while the requests that triggered it are queued
-			cfg.Pre, cfg.PreV6, cfg.Trunk = nil, nil, false
+			cfg.Pre, cfg.PreV6, cfg.Trunk, cfg.StrayTrunk, cfg.StrayERDMA = nil, nil, false, false, false
 			cfg.Faults = map[int]cloudsim.Fault{1: {Kind: cloudsim.FaultHalfCreated}, 1 + rng.Intn(4): {Kind: cloudsim.FaultErrAfter}}
 			return cfg
 		}
